@@ -243,6 +243,22 @@ func (g *Gateway) queryHandler(w http.ResponseWriter, r *http.Request) {
 				}, nil
 			}
 
+			// a variable which client leaves out takes the default value declared by the operation,
+			// sub-requests declare variables without defaults
+			for _, vd := range operation.VariableDefinitions {
+				if _, ok := request.Variables[vd.Variable]; ok || vd.DefaultValue == nil {
+					continue
+				}
+				value, err := vd.DefaultValue.Value(nil)
+				if err != nil {
+					continue
+				}
+				if request.Variables == nil {
+					request.Variables = make(map[string]interface{})
+				}
+				request.Variables[vd.Variable] = value
+			}
+
 			planningContext := &planner.PlanningContext{
 				Request:    request,
 				Operation:  operation,
